@@ -254,3 +254,21 @@ U("evts.unstash_real", src="units/evts_real.c", harness="h_unstash_real", plain=
   bound_note="real evts.c + real queue.c, every stash of <= K events (K=4 quick / 8 thorough), every n; loops unwound K+3 with unwinding assertions",
   defines_quick=["V_KSTASH=4"], defines_thorough=["V_KSTASH=8"], unwind=8, unwind_thorough=12,
   props=["C16", "C04"], contract_files=[], native=True, timeout=600, min_obligations=10)
+MODC = ABS + ["contracts/cb.contracts.h", "contracts/mod.contracts.h"]
+U("mod.stop", src="units/mod_unit.c", harness="h_stop", enforce="stop",
+  replace=["manage_srcs", "m_mod_is", "reset_module", "optional_hook", "tell_system_pubsub_msg"], logctx="CORE",
+  props=["C01", "C19", "C04"], contract_files=MODC, native=False, timeout=300, min_obligations=30)
+U("mod.start", src="units/mod_unit.c", harness="h_start", enforce="start",
+  replace=["init_pubsub_fd", "manage_srcs", "optional_hook", "tell_system_pubsub_msg", "stop"], logctx="CORE",
+  props=["C01", "C19", "C04"], contract_files=MODC, native=False, timeout=300, min_obligations=30)
+PROPS["C01"] = {"level": "proof", "level_text": "TODO", "level_note": "TODO", "not_decided": [], "explanation": "TODO"}
+PROPS["C19"] = {"level": "proof", "level_text": "TODO", "level_note": "TODO", "not_decided": [], "explanation": "TODO"}
+U("mod.optional_hook", src="units/mod_unit.c", harness="h_optional_hook", enforce="optional_hook",
+  replace=["m_mem_ref", "m_mem_unref", "m_mod_is", "v_on_start", "v_on_stop", "v_on_eval"], logctx="CORE",
+  props=["C01", "C15", "C04"], contract_files=MODC, native=False, timeout=300, min_obligations=30)
+U("mod.deregister", src="units/mod_unit.c", harness="h_mod_deregister", enforce="mod_deregister",
+  replace=["m_ctx", "m_mod_is", "m_mem_ref", "m_mem_unref", "m_map_remove", "m_map_len", "stop", "fs_cleanup", "m_mem_unrefp", "m_ctx_deregister"], logctx="CORE",
+  props=["C01", "C19", "C07", "C15", "C14", "C04"], contract_files=MODC, native=False, timeout=300, min_obligations=30)
+U("mod.evaluate", src="units/mod_unit.c", harness="h_evaluate_module", enforce="evaluate_module",
+  replace=["m_mod_is", "fetch_ms", "optional_hook", "start", "m_bst_itr_new"], logctx="CORE",
+  props=["C01", "C04"], contract_files=MODC, native=False, timeout=300, min_obligations=30)
